@@ -84,6 +84,7 @@ func ethContext(c *core.Ctx) *ethCtx {
 }
 
 func runC27(c *core.Ctx) {
+	checkBtcReindexKeepsNewTip(c)
 	e := ethContext(c)
 	if e == nil {
 		return
